@@ -285,7 +285,7 @@ class Gen:
         self.hist[k] = self.hist.get(k, 0) + 1
 
     def call(self, name, level, maxdepth):
-        """-> (python arg json, model expr, expected expanded conclusion | None)"""
+        """-> (python arg json, model expr, expected expanded conclusion | None, [sub-case dicts])"""
         lib, rng = self.lib, self.rng
         m = lib.by_name[name]
         if name in MATCH_METHODS:
@@ -295,6 +295,7 @@ class Gen:
         pats = [p for p in params if p['type'] == 'pat']
         thunks = [p for p in params if p['type'] == 'thunk']
         env = {}
+        subs = []
         py_thunks, ml_thunks, prem_concs = {}, {}, {}
         # omit trailing defaulted Pattern parameters sometimes (exercises the phi0/phi1/phi2 defaults)
         n_omit = 0
@@ -316,13 +317,14 @@ class Gen:
             if level < 2 and rng.random() < (0.4 if level == 0 else 0.25):
                 for _ in range(4):
                     g = rng.choice(lib.with_schema)
-                    pj, mj, exp = self.call(g, level + 1, maxdepth)
+                    pj, mj, exp, sj = self.call(g, level + 1, maxdepth)
                     if exp is None:
                         continue
                     e2 = dict(env)
                     if S.match_formula(sch['premises'][i], exp, e2):
                         env = e2
                         py_thunks[i], ml_thunks[i], prem_concs[i] = pj, mj, exp
+                        subs.append(dict(py=pj, ml=mj, expect=exp, sub=sj, origin='sub'))
                         self.note('premise:derived-from-' + ('rule-with-premises' if any(q['type'] == 'thunk' for q in lib.by_name[g]['params']) else 'axiom-style-rule'))
                         break
         # remaining schema variables / pattern arguments
@@ -371,7 +373,7 @@ class Gen:
                 ti += 1
         exp = oracle(lib, name, {k: expand(a) for k, a in pat_args.items()}, [prem_concs[i] for i in range(len(thunks))])
         return ({'call': name, 'args': py_args}, f'(C {m["idx"]} ' + ' '.join(ml_args) + ')' if ml_args else f'(C {m["idx"]})',
-                exp[0] if exp else None)
+                exp[0] if exp else None, subs)
 
     # -- the six *_match* rules: premise 1/2 is instantiated so that the middle formulas agree --------
     def match_call(self, name, level):
@@ -425,7 +427,7 @@ class Gen:
         else:
             py_args.append({'p': c})
             ml_args.append('P' + hexp(expand(c)))
-        return {'call': name, 'args': py_args}, f'(C {m["idx"]} ' + ' '.join(ml_args) + ')', exp
+        return {'call': name, 'args': py_args}, f'(C {m["idx"]} ' + ' '.join(ml_args) + ')', exp, []
 
 
 # ------------------------------------------------------------------------------------------------
@@ -554,11 +556,11 @@ def run(tier, seed):
         # 2. cases: corpus first, then generated
         cases = load_corpus()
         G = Gen(lib, rng, R.hist)
-        budget = per_method if not proof_broken else per_method * 3
+        budget = per_method if not proof_broken else per_method * 2
         for m in idx['methods']:
             for k in range(budget):
-                py, ml, exp = G.call(m['name'], 0, 1 + (k % 3))
-                cases.append(dict(py=py, ml=ml, expect=exp, origin=f'gen:{m["name"]}:{k}'))
+                py, ml, exp, sub = G.call(m['name'], 0, 1 + (k % 3))
+                cases.append(dict(py=py, ml=ml, expect=exp, sub=sub, origin=f'gen:{m["name"]}:{k}'))
         impl = run_impl(cases)
         model = C.run_lines_parallel(mlref, [c['ml'] for c in cases]) if ok else [None] * len(cases)
         if ok and len(model) != len(cases):
@@ -583,23 +585,47 @@ def run(tier, seed):
             if problem:
                 problems.append((c, i, mo, problem))
 
-        # 3./4. failing inputs: attribute to the innermost failing call
-        seen = set()
-        for c, i, mo, (sig, desc) in problems:
-            if sig in seen:
+        # 3./4. failing inputs: attribute each to the innermost call that already fails on its own
+        blamed_methods = set()
+
+        def innermost(c, i, mo, prob):
+            subs = c.get('sub') or []
+            if subs:
+                outs = run_impl(subs, chunks=1)
+                for s_, o_ in zip(subs, outs):
+                    _, p_ = judge(s_, o_, None)
+                    if p_:
+                        return innermost(s_, o_, None, p_)
+            return c, i, mo, prob
+
+        def inner_names(py):
+            return {s_['call'] for s_ in subcalls(py)}
+
+        # callees before callers (index order is dependency order), small inputs first
+        closure = {}
+
+        def callees(n):
+            if n not in closure:
+                closure[n] = set()
+                for c_ in lib.by_name[n]['calls']:
+                    closure[n] |= {c_} | callees(c_)
+            return closure[n]
+
+        for c, i, mo, prob in sorted(problems, key=lambda x: (lib.by_name[x[0]['py']['call']]['idx'], len(json.dumps(x[0]['py'])))):
+            if prob[0] in [v[0] for v in R.violations] or prob[0] in [k_[0] for k_ in R.known_hit]:
                 continue
-            inner = [dict(py=s, ml=None, expect=None) for s in subcalls(c['py'])]
-            blamed = None
-            if inner:
-                outs = run_impl(inner, chunks=1)
-                for s, o in zip(inner, outs):
-                    if o.split()[0] in ('RUNFAIL', 'CRASH'):
-                        blamed = (s, o)
-            seen.add(sig)
-            R.violation(sig, desc, dict(method=c['py']['call'], python_call=c['py'], model_request=c['ml'],
-                                        expected_conclusion_hex=hexp(c['expect']) if c['expect'] else None,
-                                        implementation=i, model=mo, origin=c['origin'],
-                                        inner_failure=blamed))
+            if (inner_names(c['py']) | callees(c['py']['call'])) & blamed_methods:
+                continue        # explained by an inner call / a called library rule that is already reported
+            c2, i2, mo2, (sig, desc) = innermost(c, i, mo, prob)
+            blamed_methods.add(c2['py']['call'])
+            if mo2 is None and ok and c2.get('ml'):
+                mo2 = C.run_lines(mlref, [c2['ml']])[0]
+            R.violation(sig, desc, dict(method=c2['py']['call'], python_call=c2['py'], model_request=c2.get('ml'),
+                                        expected_conclusion_hex=hexp(c2['expect']) if c2.get('expect') else None,
+                                        implementation=i2, model=mo2, found_in=c['origin'],
+                                        proof_stage_ok=not proof_broken,
+                                        proof_log_tail=None if P['ok'] else P['log'][-1200:],
+                                        translation_abort=abort))
     if proof_broken and not R.violations and not R.known_hit:
         R.violation('proof-broken', 'translation or Coq proof stage failed and no failing input was found',
                     {'no_failing_input_found': True, 'theorem_or_correspondence': 'Gen/PropLibSpec.v / Props/C10.v',
@@ -615,12 +641,33 @@ def run(tier, seed):
                           'notation, constrained metavariables, pending substitutions; premises = assumptions of the documented '
                           'shape, conclusions of other rules, or malformed); distinct = distinct (entry point, expanded argument '
                           'tree); non-trivial = the implementation built a proof with >= 2 rule applications or rejected the arguments')
-    extra = dict(methods_translated=len(idx['methods']) if idx else 0,
+    extra = {}
+    if not P['ok']:
+        # common.prop_check counts by file time stamps; the spec file's text does not change when only a
+        # method body changed, so count precisely: everything before the first failing lemma
+        import re
+        mline = re.search(r'File "\./(Gen/PropLibSpec\.v|[\w/]+\.v)", line (\d+)', P['log'])
+        if mline:
+            f_bad, ln = mline.group(1), int(mline.group(2))
+            good = 0
+            for f in P['files']:
+                src = C.strip_comments(open(os.path.join(C.COQ, f)).read())
+                if f == f_bad:
+                    src = '\n'.join(src.split('\n')[:ln - 2])
+                    good += len(C.STMT.findall(src))
+                elif f not in ('Props/C10.v',) and not (f_bad != 'Gen/PropLibSpec.v' and f == 'Gen/PropLibSpec.v'):
+                    good += len(C.STMT.findall(src))
+            extra['discharged'] = good
+            m2 = re.search(r'Lemma (\w+)', '\n'.join(open(os.path.join(C.COQ, f_bad)).read().split('\n')[max(0, ln - 3):ln]))
+            extra['first_failing_lemma'] = m2.group(1) if m2 else None
+    extra.update(methods_translated=len(idx['methods']) if idx else 0,
                  methods_excluded_algorithmic=idx['excluded'] if idx else None,
                  methods_without_statement=idx['unspecified'] if idx else None,
                  method_source_sha256_16={m['name']: m['sha'] for m in idx['methods']} if idx else None,
                  translation_aborted=abort, mismatches=len(mismatches), oracle_problems=len(problems),
                  gen_wall_s=round(time.time() - t0, 1))
+    if translation_aborted:
+        extra['discharged'] = 0
     return R.finish(level='proof', trusted_base=C.TRUSTED_COMMON + [
         'translators/proplib.py + translators/schema.py: Python-ast -> Gallina translation of the library methods and the '
         'reading of docstring schemas (precedence ~ > /\\ > \\/ > -> > <->, variable/parameter binding); validated on every run '
